@@ -177,13 +177,14 @@ type Env struct {
 	callSiteHits map[string]int
 	clauseErrs []string
 	maybeNilIface map[string]bool
+	applying  map[*Contract]bool
 }
 
 func newEnv(p *Program, cx *Contracts, cfg *PropConfig) *Env {
 	d := newDecls()
 	return &Env{P: p, D: d, S: newSorter(d), Cx: cx, cfg: cfg, maxPaths: 20000,
 		trusted: map[string]int{}, dropped: map[string]int{}, inlined: map[string]int{}, havocked: map[string]int{}, notes: map[string]int{},
-		splitInfo: map[string]*splitRec{}, termFacts: map[string][]string{}, nonNil: map[string]bool{}, maybeNilIface: map[string]bool{}, callSiteHits: map[string]int{}, keyTerms: map[string][]Seg{}, shapes: map[string]string{}, noContract: map[*ssa.Function]bool{}}
+		splitInfo: map[string]*splitRec{}, termFacts: map[string][]string{}, nonNil: map[string]bool{}, maybeNilIface: map[string]bool{}, applying: map[*Contract]bool{}, callSiteHits: map[string]int{}, keyTerms: map[string][]Seg{}, shapes: map[string]string{}, noContract: map[*ssa.Function]bool{}}
 }
 
 func (e *Env) fail(format string, a ...interface{}) {
@@ -234,7 +235,7 @@ func (e *Env) compSort(comp string) string {
 	return s
 }
 
-var kvComps = map[string]bool{"xibc": true, "aggregate": true, "rvesting": true, "params": true}
+var kvComps = map[string]bool{"pstore": true, "xibc": true, "aggregate": true, "rvesting": true, "params": true}
 
 func isKVComp(c string) bool { return kvComps[c] }
 
@@ -274,7 +275,7 @@ func (e *Env) applyOp(st *State, w int, op WorldOp) {
 }
 
 func (e *Env) allComps() []string {
-	m := map[string]bool{"xibc": true, "aggregate": true, "rvesting": true, "bank": true, "supply": true, "bankmeta": true, "evm": true, "params": true, "auth": true, "staking": true, "gov": true, "other": true, "events": true}
+	m := map[string]bool{"xibc": true, "aggregate": true, "rvesting": true, "pstore": true, "bank": true, "supply": true, "bankmeta": true, "evm": true, "params": true, "auth": true, "staking": true, "gov": true, "other": true, "events": true}
 	if e.cfg != nil {
 		for c := range e.cfg.CompSorts {
 			m[c] = true
